@@ -505,6 +505,12 @@ def jobs_for(ck):
         for pl in (('root', 'allsub') if ck.thorough else (('root', 'allsub')[(gi + ck.seed) % 2],)):
             jobs.append((idx, spec, pl, False, ()))
             idx += 1
+    # targets without a single source in the source tree (their own C file is a custom-target / generator() output)
+    for ai, spec in enumerate(pg.allgen_specs() + pg.pch_specs()[:6]):
+        for oi, own in enumerate(('own_ct', 'own_gen')):
+            for pl in (('root', 'allsub') if ck.thorough else (('root', 'allsub')[(ai + oi + ck.seed) % 2],)):
+                jobs.append((idx, spec, pl + '+' + own, False, ()))
+                idx += 1
     # compiler.preprocess(depends:) over generated files of any name
     for spec, args in preprocess_projects():
         jobs.append((idx, spec, 'root', False, args))
